@@ -290,6 +290,8 @@ def native_build_and_run(q, wd, values, tag="replay"):
            "-I" + os.path.join(REPO, "inc"), "-I" + os.path.join(REPO, "src"), "-I" + HARN, "-I" + REPO,
            "-DNATIVE_REPLAY=1"] + config_defs(q) + q.defs + ["-o", exe] + srcs
     try:
+        # harness-defined link-seam stubs take precedence over archive members
+        cmd.append("-Wl,--allow-multiple-definition")
         cmd.append(native_archive(q.config, config_defs(q)))
     except Exception as ex_:
         pass
